@@ -43,7 +43,8 @@ def lifecycles(draw, tier):
         c["nh"], c["na"] = nh, na
         c["params"] = draw(gen.net_params(n, nh, na, [0.05, 0.5, 2.0]))
         c["zero_d"] = draw(st.booleans())
-        c["module_zero_weights"] = draw(st.booleans())      # the user's module was created with zero_weights=True (then given its parameters)
+        c["module_zero_weights"] = draw(st.booleans())
+        c["mutate_before_phase_access"] = draw(st.booleans())      # the user's module was created with zero_weights=True (then given its parameters)
         if c["zero_d"] and na is not None:
             c["params"]["d"] = [0.0] * na
     ops = []
@@ -135,6 +136,17 @@ def check(c):
         before = snap(module)
         mptrs = ptrs(module)
         state = cls(n, gpu=False, module=module)
+        if c.get("mutate_before_phase_access") and has_ph:
+            # the order of the first accesses is immaterial: the amplitude network (= the user's module) is changed in place BEFORE the phase
+            # network is looked at for the first time; the phase network must still be the copy taken at construction
+            for p_ in module.parameters():
+                p_.data.add_(0.5)
+            require(same(snap(state.rbm_ph), before), "module:phase-copied-late", "the phase network follows a change made to the module after construction (it was not copied at construction time)")
+            for p_ in module.parameters():
+                p_.data.sub_(0.5)
+            for k_, v_ in before.items():          # restore the exact construction-time values (x + 0.5 - 0.5 may differ from x in the last bit)
+                dict(module.named_parameters())[k_].data.copy_(v_)
+            labels.append("amplitude_changed_before_first_phase_access")
         require(state.rbm_am is module or ptrs(state.rbm_am) == mptrs, "module:not-used", "the user-supplied RBM is not used as the amplitude network (different parameter storage)")
         require(same(snap(state.rbm_am), before), "module:params-changed", "constructing from a module changed the module's parameters")
         require((state.num_visible, state.num_hidden) == (n, nh) and (t != "density" or state.num_aux == na), "module:sizes", "state sizes do not follow the module's sizes")
